@@ -6,7 +6,7 @@ package conversions
 // Contracts for the verification machinery in /verif (govc). Comment-only file:
 // it adds no executable code and is compiled only with the build tag `verif`.
 
-//@ props C07 C16 C13
+//@ props C16
 //@
 //@ spec func srcRate(h int, spot int, avg int) int = (h >= config.PIP10AverageActivation && spot > avg) ? avg : spot
 //@ spec func dstRate(h int, spot int, avg int) int = (h >= config.PIP10AverageActivation && spot < avg) ? avg : spot
@@ -16,6 +16,7 @@ package conversions
 //@     && convSpec(h, amt, fr, fa, tr, ta) <= MaxInt64
 //@
 //@ func Convert
+//@   props C07 C13 C14 C16
 //@   arith checked
 //@   ensures @iff (err == nil) <==> convOK(height, amount, fromRate, fromAvg, toRate, toAvg)
 //@   ensures @exact err == nil ==> result == convSpec(height, amount, fromRate, fromAvg, toRate, toAvg)
@@ -28,6 +29,7 @@ package conversions
 //@ spec func share(req int, bank int, total int) int = (req * bank) / total
 //@
 //@ func PayoutBig
+//@   props C16 C14
 //@   arith checked
 //@   requires totalRequested.V >= 0
 //@   ensures @zero (requested == 0 || bank == 0 || totalRequested.V == 0) ==> result == 0
@@ -36,6 +38,7 @@ package conversions
 //@   modifies nothing
 //@
 //@ func Payout
+//@   props C16
 //@   arith checked
 //@   ensures @zero (requested == 0 || bank == 0 || totalRequested == 0) ==> result == 0
 //@   ensures @share requested != 0 && bank != 0 && totalRequested != 0 && requested <= totalRequested ==> result == share(requested, bank, totalRequested) && result <= bank
@@ -45,6 +48,7 @@ package conversions
 //@ spec func convOK0(h int, amt int, fr int, tr int) bool = convOK(h, amt, fr, fr, tr, tr)
 //@
 //@ func Refund
+//@   props C16
 //@   arith checked
 //@   requires inputAmount >= 0 && pegYield >= 0
 //@   requires convOK0(height, inputAmount, inputRate, pegRate) && pegYield <= conv0(height, inputAmount, inputRate, pegRate)
@@ -53,3 +57,60 @@ package conversions
 //@   ensures @nonneg result >= 0
 //@   canary @more result * inputRate > inputAmount * inputRate
 //@   modifies nothing
+//@
+//@ // ---- ConversionSupplySet (C01 C14 C16) ----------------------------------------------
+//@ spec func wfSet(s *ConversionSupplySet) bool =
+//@     s.totalRequested != nil && s.ConversionRequests != nil
+//@     && s.totalRequested.V == msum(vals(s.ConversionRequests), dom(s.ConversionRequests))
+//@
+//@ func NewConversionSupply
+//@   props C16 C14
+//@   ensures @wf result != nil && fresh(result) && wfSet(result) && result.Bank == bank && len(result.ConversionRequests) == 0
+//@   ensures @empty forall k string :: !dom(result.ConversionRequests)[k]
+//@   modifies nothing
+//@
+//@ func (*ConversionSupplySet).AddConversion
+//@   props C16 C14
+//@   requires @wf wfSet(s)
+//@   ensures @wf wfSet(s)
+//@   ensures @added err == nil ==> !old(dom(s.ConversionRequests))[txid] && dom(s.ConversionRequests) == upd(old(dom(s.ConversionRequests)), txid, true) && vals(s.ConversionRequests) == upd(old(vals(s.ConversionRequests)), txid, pegAmt)
+//@   ensures @unchanged_on_error err != nil ==> dom(s.ConversionRequests) == old(dom(s.ConversionRequests)) && vals(s.ConversionRequests) == old(vals(s.ConversionRequests))
+//@   ensures @same_fields s.Bank == old(s.Bank) && s.ConversionRequests == old(s.ConversionRequests) && s.totalRequested == old(s.totalRequested)
+//@   modifies contents(s.ConversionRequests), s.totalRequested.V
+//@
+//@ func (*ConversionSupplySet).TotalRequested
+//@   props C16
+//@   requires s.totalRequested != nil
+//@   ensures 0 <= s.totalRequested.V && s.totalRequested.V <= MaxUint64 ==> result == s.totalRequested.V
+//@   modifies nothing
+//@
+//@ spec func shareZ(req int, bank int, total int) int = (req == 0 || bank == 0 || total == 0) ? 0 : share(req, bank, total)
+//@
+//@ func (*ConversionSupplySet).Payouts
+//@   props C16 C14 C01
+//@   arith checked
+//@   requires @wf wfSet(s)
+//@   ensures @fresh result != nil && fresh(result)
+//@   ensures @dom forall k string :: dom(result)[k] <==> dom(s.ConversionRequests)[k]
+//@   ensures @full s.totalRequested.V < s.Bank ==> (forall k string :: dom(s.ConversionRequests)[k] ==> result[k] == s.ConversionRequests[k])
+//@   ensures @sum_full s.totalRequested.V < s.Bank ==> msum(vals(result), dom(result)) == s.totalRequested.V
+//@   ensures @sum_capped s.totalRequested.V >= s.Bank && len(s.ConversionRequests) > 0 ==> msum(vals(result), dom(result)) == s.Bank
+//@   ensures @share_lower_bound!slow s.totalRequested.V >= s.Bank ==> (forall k string :: dom(s.ConversionRequests)[k] ==> result[k] >= shareZ(s.ConversionRequests[k], s.Bank, s.totalRequested.V))
+//@   canary @sum_always_bank len(s.ConversionRequests) > 0 ==> msum(vals(result), dom(result)) == s.Bank
+//@   modifies nothing
+//@   loop 1 invariant @map payouts != nil && fresh(payouts)
+//@   loop 1 invariant @dom forall k string :: visited[k] <==> dom(payouts)[k]
+//@   loop 1 invariant @vals forall k string :: visited[k] ==> dom(s.ConversionRequests)[k] && vals(payouts)[k] == vals(s.ConversionRequests)[k]
+//@   loop 1 invariant @sum msum(vals(payouts), visited) == msum(vals(s.ConversionRequests), visited)
+//@   loop 2 invariant @map payouts != nil && fresh(payouts)
+//@   loop 2 invariant @dom forall k string :: visited[k] <==> dom(payouts)[k]
+//@   loop 2 invariant @vals forall k string :: visited[k] ==> dom(s.ConversionRequests)[k] && vals(payouts)[k] == shareZ(vals(s.ConversionRequests)[k], s.Bank, s.totalRequested.V)
+//@   loop 2 invariant @paid totalPaid == msum(vals(payouts), visited)
+//@   loop 2 invariant @bound totalPaid * s.totalRequested.V <= s.Bank * msum(vals(s.ConversionRequests), visited)
+//@   loop 2 invariant @total s.totalRequested.V >= s.Bank && (s.totalRequested.V == 0 ==> totalPaid == 0)
+//@   loop 2 body-assert @room msum(vals(s.ConversionRequests), visited) <= s.totalRequested.V
+//@   loop 3 invariant @top_nonempty (exists k string :: visited[k]) ==> len(top) >= 1
+//@   loop 3 invariant @most_pos most > 0 ==> len(top) >= 1
+//@   loop 3 invariant @top_in_dom forall j int :: 0 <= j && j < len(top) ==> dom(s.ConversionRequests)[top[j]]
+//@   loop 3 invariant @top_fresh len(top) == 0 || fresh(top)
+//@   loop 3 invariant @visited_in_dom forall k string :: visited[k] ==> dom(s.ConversionRequests)[k]
